@@ -15,6 +15,7 @@ import (
 	"io"
 	"math"
 	"net"
+	"net/http"
 	"os"
 	"os/exec"
 	"path/filepath"
@@ -266,7 +267,90 @@ func wrapStorage(kv storage.KvStorage, m metrics.Metrics) storage.KvStorage {
 	return smetrics.NewKvStorage(kv, m)
 }
 
+// recMetrics forwards to the real metrics client and records what the current request's own goroutine emits
+type recMetrics struct {
+	inner metrics.Metrics
+	cur   int64 // goroutine id of the handler call being observed (0: none)
+	mu    sync.Mutex
+	ems   []Emission
+}
+
+func (m *recMetrics) GetGrpcServerOption() []grpc.ServerOption { return m.inner.GetGrpcServerOption() }
+func (m *recMetrics) GetHttpHandlers() map[string]http.Handler { return m.inner.GetHttpHandlers() }
+func (m *recMetrics) rec(kind, name string, v interface{}, tags []metrics.T) {
+	cur := atomic.LoadInt64(&m.cur)
+	if cur == 0 || lib.GoID() != cur {
+		return
+	}
+	e := Emission{Kind: kind, Name: []byte(name)}
+	for _, t := range tags {
+		e.Labels = append(e.Labels, [2][]byte{[]byte(t.Name), []byte(t.Value)})
+	}
+	switch x := v.(type) {
+	case int:
+		e.Neg = x < 0
+	case int64:
+		e.Neg = x < 0
+	case float64:
+		e.Neg = x < 0
+	}
+	m.mu.Lock()
+	if len(m.ems) < 64 {
+		m.ems = append(m.ems, e)
+	}
+	m.mu.Unlock()
+}
+func (m *recMetrics) EmitCounter(name string, v interface{}, t ...metrics.T) error {
+	m.rec("Counter", name, v, t)
+	return m.inner.EmitCounter(name, v, t...)
+}
+func (m *recMetrics) EmitGauge(name string, v interface{}, t ...metrics.T) error {
+	m.rec("Gauge", name, v, t)
+	return m.inner.EmitGauge(name, v, t...)
+}
+func (m *recMetrics) EmitHistogram(name string, v interface{}, t ...metrics.T) error {
+	m.rec("Histogram", name, v, t)
+	return m.inner.EmitHistogram(name, v, t...)
+}
+func (m *recMetrics) begin() {
+	m.mu.Lock()
+	m.ems = nil
+	m.mu.Unlock()
+	atomic.StoreInt64(&m.cur, lib.GoID())
+}
+func (m *recMetrics) end() []Emission {
+	atomic.StoreInt64(&m.cur, 0)
+	m.mu.Lock()
+	defer m.mu.Unlock()
+	out := m.ems
+	m.ems = nil
+	return out
+}
+
+// emissions of the handler rows' namespace: what the handlers themselves emit (the backend's own metrics,
+// emitted on the same goroutine below the handler, are other rows of the table)
+var handlerNames = func() map[string]bool {
+	m := map[string]bool{}
+	for _, base := range []string{"brain.server.write", "brain.server.read", "brain.server.watch"} {
+		for _, sfx := range []string{"", ".latency", ".fail", ".responsesize"} {
+			m[base+sfx] = true
+		}
+	}
+	for _, n := range []string{"brain.watch.event", "read", "read.latency", "read.responsesize", "write", "write.latency", "write.responsesize", "write.fail",
+		"watch.watch_id", "watch.range", "watch.watch", "watch.cancel", "watch.close", "watcher.receive.cancel", "watch.client.cancel",
+		"watch.request.unsupported", "invalid.watch.key", "watch.backend.err", "watch.backend.list_stream.err", "watch.list_stream.eof",
+		"watch.list_stream.latency", "watch.list_stream.push", "watch.list_stream.push.size", "watch.list_stream.push.err",
+		"watch.watch_stream.push", "watch.watch_stream.push.size", "watch.watch_stream.push.err"} {
+		m[n] = true
+	}
+	return m
+}()
+
+// the names of Model/HandlerMetrics.all_handler_rows
+func handlerLevel(e Emission) bool { return handlerNames[string(e.Name)] }
+
 type node struct {
+	rec   *recMetrics
 	b     backend.Backend
 	peers service.PeerService
 	es    *etcd.RPCServer
@@ -278,7 +362,8 @@ func newNode(engine, scratch string) (*node, error) {
 	if err != nil {
 		return nil, err
 	}
-	m := kbprom.NewMetrics(metrics.Tag("cluster", "verif"))
+	rm := &recMetrics{inner: kbprom.NewMetrics(metrics.Tag("cluster", "verif"))}
+	var m metrics.Metrics = rm
 	if engine == lib.EngWrapMem {
 		// the production wiring of --enable-storage-metrics: the wrapper shares the node's metrics client
 		kv = wrapStorage(kv, m)
@@ -292,7 +377,7 @@ func newNode(engine, scratch string) (*node, error) {
 	b := backend.NewBackend(kv, backend.Config{Prefix: "/registry", Identity: "127.0.0.1:3379", EnableEtcdCompatibility: true, WatchCacheSize: cache}, m)
 	le := leader.NewLeaderElection(b, m, func(context.Context) {}, func() {})
 	peers := service.NewPeerService(le, m, b, service.Config{})
-	n := &node{b: b, peers: peers}
+	n := &node{b: b, peers: peers, rec: rm}
 	n.es = etcd.New(b, m, peers)
 	n.bs = brain.New(b, m, peers) // starts the election campaign and the compact loop
 	if !lib.WaitUntil(10*time.Second, func() bool { return peers.IsLeader() }) {
@@ -860,6 +945,7 @@ func corpusDynamic() []func(cur uint64) genReq {
 				JSON:    js("api", "brain.Watch", "key", k, "scenario", "the client does not read its stream; 10300 creates under the prefix, one event batch each; then a new watch on the prefix and one more create", "corpus", "seed C20-8"),
 				Verdict: verdict, ExtraFn: func() int64 { return atomic.LoadInt64(&creates) },
 				Run: func(n *node) bool {
+					n.rec.end() // a scenario of many calls, not one handler call: its emissions are not attributed to the watch
 					c, cancel := context.WithCancel(ctx)
 					defer cancel()
 					hold := make(chan struct{})
@@ -939,6 +1025,8 @@ type logLine struct {
 	Progress bool                   `json:"progress"`
 	Note     string                 `json:"note,omitempty"`
 	List     *listObs               `json:"list,omitempty"`
+	Ems      string                 `json:"ems,omitempty"` // Coq list of the handler-level emissions of the call's goroutine
+	EmsN     int                    `json:"ems_n,omitempty"`
 	// phase "cancel": one pure watch on an etcd stream, ended by a client cancel request (or not)
 	ClientCancel bool `json:"client_cancel,omitempty"`
 	Canceled     int  `json:"canceled,omitempty"`
@@ -1075,13 +1163,23 @@ func childReq(engine string, seed uint64, count int, logPath, scratch string) {
 	runOne := func(g genReq) {
 		wr(logLine{I: i, Phase: "start", Kind: g.Kind, Coq: g.Coq, Req: g.JSON})
 		done := make(chan string, 1)
+		emsCoq, emsN := "[]", 0
 		go func() {
 			defer func() {
 				if rec := recover(); rec != nil {
 					done <- "OPanic:" + fmt.Sprint(rec)
 				}
 			}()
-			if g.Run(n) {
+			n.rec.begin()
+			isErr := g.Run(n)
+			var hl []string
+			for _, e := range n.rec.end() {
+				if handlerLevel(e) {
+					hl = append(hl, coqEmission(e))
+				}
+			}
+			emsCoq, emsN = lib.List(hl), len(hl)
+			if isErr {
 				done <- "OErr"
 			} else {
 				done <- "OResp"
@@ -1119,6 +1217,9 @@ func childReq(engine string, seed uint64, count int, logPath, scratch string) {
 			last = rev
 		}
 		dl := logLine{I: i, Phase: "done", Outcome: outcome, Alloc: alloc, Health: health, Progress: prog, Note: note}
+		if outcome == "OResp" || outcome == "OErr" {
+			dl.Ems, dl.EmsN = emsCoq, emsN
+		}
 		if g.List != nil && g.List.Set && outcome == "OResp" {
 			dl.List = g.List
 		}
@@ -1424,13 +1525,17 @@ func main() {
 
 	vdir := verifDir()
 	header := "From KB Require Import Base.Cases Model.Metrics Model.Handlers Model.C20Cases Gen.MetricsTable.\n" +
-		"Definition c20_check_t := c20_check metrics_table.\nDefinition c20_oracle_t := c20_oracle metrics_globals metrics_table."
+		"Definition table_valid := Eval vm_compute in check_program metrics_globals metrics_table.\n" +
+		"(* = c20_check_covered metrics_globals metrics_table by Proofs.C20Cases.c20_check_covered_with_eq *)\n" +
+		"Definition c20_check_t := c20_check_covered_with table_valid metrics_globals metrics_table.\nDefinition c20_oracle_t := c20_oracle metrics_globals metrics_table."
 	w := lib.NewWriter(args, "C20", "c20", header, "c20_case", "c20_check_t", "c20_oracle_t", 400)
 	work := filepath.Join(args.Scratch, fmt.Sprintf("c20-%d", os.Getpid()))
 	_ = os.MkdirAll(work, 0o755)
 	defer os.RemoveAll(work)
 	rng := lib.NewRand(args.Seed)
 
+	invalidCases := 0
+	emitted := 0
 	nSeq, seqLen, nReq := 40, 30, 1000
 	switch args.Tier {
 	case "thorough":
@@ -1457,6 +1562,9 @@ func main() {
 	} else if err := json.Unmarshal(tb, &table); err != nil {
 		w.Fail(lib.ImplFailure{CaseID: -1, What: "metric table unreadable: " + err.Error()})
 	} else {
+		if !table.WrapperPath.Identity {
+			invalidCases++
+		}
 		pathNote := strings.Join(table.WrapperPath.Notes, "; ")
 		w.Add(lib.Case{Kind: "wrapper-path", Coq: lib.App("KPath", lib.Bool(table.WrapperPath.Identity)),
 			JSON:     map[string]interface{}{"what": "structural check that Emit*/labelsToMap/extractLabelNames hand label names and values to client_golang unchanged", "identity": table.WrapperPath.Identity, "deviations": pathNote},
@@ -1666,6 +1774,15 @@ func main() {
 			if d.Note != "" {
 				s.Req["note"] = d.Note
 			}
+			if !d.Health || !d.Progress {
+				invalidCases++
+			}
+			ems := "[]"
+			if d.Ems != "" {
+				ems = d.Ems
+				s.Req["handler_emissions"] = d.EmsN
+				emitted += d.EmsN
+			}
 			lst := "None"
 			if d.List != nil {
 				lst = lib.Some(lib.Pair(lib.Z(d.List.Count), lib.Bool(d.List.More)))
@@ -1691,7 +1808,7 @@ func main() {
 				}
 				s.Req["preceding_requests"] = logTail
 			}
-			w.Add(lib.Case{Kind: "req:" + strings.TrimPrefix(s.Kind, "corpus."), Coq: lib.App("KReq", s.Coq, d.Outcome, lib.Z(d.Alloc), lib.Bool(d.Health), lib.Bool(d.Progress), lst),
+			w.Add(lib.Case{Kind: "req:" + strings.TrimPrefix(s.Kind, "corpus."), Coq: lib.App("KReq", s.Coq, d.Outcome, lib.Z(d.Alloc), lib.Bool(d.Health), lib.Bool(d.Progress), lst, ems),
 				JSON: s.Req, Trivial: false, Outcomes: []string{eng + ":" + d.Outcome}})
 		}
 		if len(order) == 0 {
@@ -1737,6 +1854,9 @@ func main() {
 		}
 	}
 
+	w.Stats.Extra["invalid_cases"] = invalidCases
+	w.Stats.Extra["handler_emissions_checked_against_model"] = emitted
+	w.Stats.Extra["invalid_cases_note"] = "cases outside the scope of C20_oracle_sound: requests whose probes failed and a deviating wrapper path (both are oracle failures as well); table cases are valid iff the gen obligation table_ok holds; a case that is neither valid nor rejected by the oracle is a mismatch (c20_check_covered)"
 	if err := w.Finish("a case is trivial iff it is an emission sequence in which every emission had the same outcome; table rows and requests always count (each is a distinct call site / request)"); err != nil {
 		fmt.Fprintln(os.Stderr, err)
 		os.Exit(1)
